@@ -355,6 +355,61 @@ fn case_packrat(g: &grammar::Grammar, rng: &mut Rng, completeness: bool) -> Opti
     None
 }
 
+// ---- resolve unit (C08): the real resolve_variables vs the transcription of resolve / scoped -------------------
+fn gen_named(rng: &mut Rng, depth: u32) -> Raw {
+    const NAMES: [&str; 4] = ["a", "b", "c", "_"];
+    let name = |rng: &mut Rng| NAMES[rng.below(4) as usize];
+    let leafy = |kind: String| Raw { kind, group: false, kids: vec![] };
+    if depth == 0 || rng.below(4) == 0 {
+        return match rng.below(6) {
+            0 | 1 | 2 | 3 => leafy(format!("Variable({})", name(rng))),
+            4 => leafy(format!("IntegerLiteral({})", rng.below(10))),
+            _ => leafy("Type".into()),
+        };
+    }
+    let d = depth - 1;
+    let node = |kind: String, kids: Vec<Raw>| Raw { kind, group: false, kids };
+    match rng.below(10) {
+        0 | 1 => { let im = if rng.below(4) == 0 { "implicit" } else { "explicit" }; let x = name(rng);
+            if rng.below(2) == 0 { node(format!("Lambda({x},{im})"), vec![gen_named(rng, d), gen_named(rng, d)]) } else { node(format!("Lambda({x},{im})"), vec![gen_named(rng, d)]) } }
+        2 => { let x = name(rng); node(format!("Pi({x},explicit)"), vec![gen_named(rng, d), gen_named(rng, d)]) }
+        3 | 4 | 5 | 6 => { let x = name(rng);
+            let mut l = if rng.below(3) == 0 { node(format!("Let({x})"), vec![gen_named(rng, d), gen_named(rng, d), gen_named(rng, d)]) } else { node(format!("Let({x})"), vec![gen_named(rng, d), gen_named(rng, d)]) };
+            l.group = rng.below(4) == 0;   // a parenthesised let (still part of the enclosing group)
+            l }
+        7 => node("Application".into(), vec![gen_named(rng, d), gen_named(rng, d)]),
+        8 => node("Sum".into(), vec![gen_named(rng, d), gen_named(rng, d)]),
+        _ => node("If".into(), vec![gen_named(rng, d), gen_named(rng, d), gen_named(rng, d)]),
+    }
+}
+
+fn case_resolve(rng: &mut Rng) -> Option<(String, String, String, usize)> {
+    let rd = 1 + rng.below(4) as u32;
+    let t = gen_named(rng, rd);
+    // an initial context: some of the names, bound at distinct depths below `depth`
+    let mut ctx: Vec<(String, usize)> = vec![];
+    for x in ["a", "b", "c"] { if rng.below(3) == 0 { ctx.push((x.to_owned(), ctx.len())); } }
+    let depth = ctx.len() + rng.below(2) as usize;
+    let env: std::collections::HashMap<String, usize> = ctx.iter().cloned().collect();
+    let dom: std::collections::HashSet<String> = ctx.iter().map(|(n, _)| n.clone()).collect();
+    let want_scoped = reference::scoped_ref(&t, &dom);
+    let want = reference::resolve_ref(&t, &env, depth);
+    let (errors, got, after) = parser::resolve_hooks::run(&t, depth, &ctx);
+    let input = format!("resolve_variables({}, depth {depth}, context {:?})", show_full(&t), ctx);
+    let size = raw_size(&t);
+    if (errors == 0) != want_scoped {
+        return Some((input, format!("{errors} error(s) reported"), format!("well scoped: {want_scoped}"), size));
+    }
+    if errors == 0 {
+        if got != want { return Some((input, got, want, size)); }
+        let mut before = ctx.clone(); before.sort();
+        if after != before { return Some((input, format!("context afterwards {after:?}"), format!("context restored {before:?}"), size)); }
+    } else if after.iter().any(|(n, d)| env.get(n) != Some(d)) {
+        return Some((input, format!("context afterwards {after:?}"), format!("a sub-map of the initial context {ctx:?}"), size));
+    }
+    None
+}
+
 // Sanity test (bounded, NOT a proof) of the ASSUMED num-bigint contract used by the proofs: exact + - *, unary
 // minus, comparisons, and checked_div = None iff divisor 0, else the quotient truncated toward zero.
 fn bigint_contract() -> (u64, Option<String>) {
@@ -413,7 +468,7 @@ fn main() {
         let t = target.clone();
         let r = panic::catch_unwind(panic::AssertUnwindSafe(|| {
             let mut local = Rng(snapshot.0);
-            let out = if t.starts_with("packrat") { case_packrat(grammar.as_ref().unwrap(), &mut local, t == "packrat_complete") } else if t.starts_with("reassociate") { case_parser(&t, &mut local) } else { case(&t, &mut local) };
+            let out = if t == "resolve" { case_resolve(&mut local) } else if t.starts_with("packrat") { case_packrat(grammar.as_ref().unwrap(), &mut local, t == "packrat_complete") } else if t.starts_with("reassociate") { case_parser(&t, &mut local) } else { case(&t, &mut local) };
             (out, local.0)
         }));
         match r {
